@@ -447,6 +447,7 @@ STD_ENUMS = {
     "std::result::Result": {0: "Ok", 1: "Err"},
     "std::ops::ControlFlow": {0: "Continue", 1: "Break"},
     "std::sync::mpsc::TryRecvError": {0: "Empty", 1: "Disconnected"},
+    "std::sync::mpmc::TryRecvError": {0: "Empty", 1: "Disconnected"},
     "std::cmp::Ordering": {-1: "Less", 0: "Equal", 1: "Greater"},
     "std::borrow::Cow": {0: "Borrowed", 1: "Owned"},
 }
